@@ -58,6 +58,11 @@ func evalRun(p *Plan, run int, trace, cover bool) (*runResult, []Violation) {
 	if p.Prop == "C07" {
 		viol = append(viol, checkEq(res, run)...)
 	}
+	// The race monitor's verdict comes last: the other oracles replay exactly,
+	// the monitor is lossy and may not report the same race in every process.
+	if res.raceViol != nil {
+		viol = append(viol, *res.raceViol)
+	}
 	return res, viol
 }
 
@@ -117,6 +122,7 @@ type workerStats struct {
 	RunHash     string         `json:"run_hash"` // hash over all run hashes: determinism self-test
 	Samples     []*Plan        `json:"samples,omitempty"`
 	Violations  int            `json:"violations"`
+	DetViolations int          `json:"det_violations"` // runs with a violation from a deterministic oracle (not only the race monitor)
 	RaceErrors  int            `json:"race_errors"`
 	DistinctFile string        `json:"distinct_file,omitempty"`
 	SigFile     string         `json:"sig_file,omitempty"`
@@ -204,6 +210,9 @@ func cmdRun(args []string) {
 		if len(viol) > 0 {
 			st.Violations++
 			v := viol[0]
+			if v.Class != "race" {
+				st.DetViolations++
+			}
 			pf := planFile{Prop: *prop, Class: v.Class}
 			if v.NeedsRun >= 0 && int64(v.NeedsRun) != i {
 				pf.Plans = append(pf.Plans, genPlan(mixSeed(*seed, uint64(*wk), uint64(v.NeedsRun)), *prop))
@@ -349,6 +358,27 @@ type minimiser struct {
 }
 
 func (m *minimiser) fails(plans []*Plan) bool {
+	if m.class != "race" {
+		return m.fails1(plans)
+	}
+	// the race monitor is lossy: try a few trace shifts (see Plan.Jitter)
+	last := plans[len(plans)-1]
+	j0 := last.Jitter
+	cand := []int{j0, j0 + 1, j0 + 2, j0 + 3}
+	if m.tests == 0 {
+		cand = []int{0, 1, 2, 3, 4, 5, 6, 7, 9, 11}
+	}
+	for _, j := range cand {
+		last.Jitter = j
+		if m.fails1(plans) {
+			return true
+		}
+	}
+	last.Jitter = j0
+	return false
+}
+
+func (m *minimiser) fails1(plans []*Plan) bool {
 	if time.Now().After(m.deadline) {
 		return false
 	}
@@ -527,10 +557,75 @@ func cmdMin(args []string) {
 			try(q)
 		}
 	}
+	// 7. drop tasks without operations and cells nobody refers to
+	try(compactPlan(last))
 	final := planFile{Prop: pf.Prop, Class: pf.Class, Plans: append(append([]*Plan{}, prefix...), last)}
 	b, _ := json.MarshalIndent(final, "", " ")
 	if err := os.WriteFile(*out, b, 0o644); err != nil {
 		fatal("%v", err)
 	}
 	fmt.Printf(`{"type":"min","reproduced":true,"tests":%d,"ops":%d}`+"\n", m.tests, last.nOps())
+}
+
+// compactPlan removes empty tasks and unreferenced cells, renumbering the rest.
+func compactPlan(p *Plan) *Plan {
+	q := clonePlan(p)
+	// tasks
+	taskMap := map[int]int{}
+	var tasks [][]Op
+	var pre [][]int64
+	for i, t := range q.Tasks {
+		if len(t) == 0 {
+			continue
+		}
+		taskMap[i] = len(tasks)
+		tasks = append(tasks, t)
+		if i < len(q.Preempt) {
+			for len(pre) < len(tasks)-1 {
+				pre = append(pre, nil)
+			}
+			pre = append(pre, q.Preempt[i])
+		}
+	}
+	// cells
+	used := map[int]bool{}
+	for _, t := range tasks {
+		for _, op := range t {
+			if op.C >= 0 {
+				used[op.C] = true
+			}
+			if op.D >= 0 {
+				used[op.D] = true
+			}
+		}
+	}
+	cellMap := map[int]int{}
+	var cells []CellSpec
+	for i, c := range q.Cells {
+		if !used[i] {
+			continue
+		}
+		cellMap[i] = len(cells)
+		if c.Owner >= 0 {
+			if n, ok := taskMap[c.Owner]; ok {
+				c.Owner = n
+			} else {
+				c.Owner = 0
+			}
+		}
+		cells = append(cells, c)
+	}
+	for ti := range tasks {
+		for oi := range tasks[ti] {
+			op := &tasks[ti][oi]
+			if op.C >= 0 {
+				op.C = cellMap[op.C]
+			}
+			if op.D >= 0 {
+				op.D = cellMap[op.D]
+			}
+		}
+	}
+	q.Tasks, q.Cells, q.Preempt = tasks, cells, pre
+	return q
 }
